@@ -1551,3 +1551,130 @@ func firstIf(v ssa.Value) (*ssa.If, bool) {
 	}
 	return nil, false
 }
+
+// ---------- CDC-8 replay composes with the snapshot ----------
+
+func ruleCDC8(w *World, r *Report) {
+	r.Doc("CDC-8", "every index-scoped replay arm resolves its index through a lookup that also finds snapshot-restored indexes; VDROP drops a restored index; deletions are applied to restored indexes", 7)
+	rt := w.readerTable(r, "CDC-8")
+	if rt == nil {
+		return
+	}
+	fi := rt.Fn
+	info := fi.Pkg.TypesInfo
+	getIdx := w.FuncObj("pkg/core", "DB.GetVectorIndex")
+	dropIdx := w.FuncObj("pkg/core", "DB.DeleteVectorIndex")
+	if getIdx == nil || dropIdx == nil {
+		r.Und("CDC-8", "anchor:DB.GetVectorIndex/DeleteVectorIndex", "", "anchor lost")
+		return
+	}
+	// local closures
+	closures := map[types.Object]*ast.FuncLit{}
+	ast.Inspect(fi.Decl.Body, func(n ast.Node) bool {
+		as, ok := n.(*ast.AssignStmt)
+		if !ok || len(as.Lhs) != 1 || len(as.Rhs) != 1 {
+			return true
+		}
+		fl, ok := as.Rhs[0].(*ast.FuncLit)
+		if !ok {
+			return true
+		}
+		if id, ok := as.Lhs[0].(*ast.Ident); ok {
+			if o := info.Defs[id]; o != nil {
+				closures[o] = fl
+			}
+		}
+		return true
+	})
+	callsFn := func(n ast.Node, f *types.Func) bool {
+		hit := false
+		ast.Inspect(n, func(m ast.Node) bool {
+			if c, ok := m.(*ast.CallExpr); ok && typeutil.StaticCallee(info, c) == f {
+				hit = true
+			}
+			return true
+		})
+		return hit
+	}
+	restoring := map[types.Object]bool{}
+	for o, fl := range closures {
+		if callsFn(fl.Body, getIdx) {
+			restoring[o] = true
+		}
+	}
+	// the aggregation map: a local map[string]*T with T declared inside replayAOF and holding `entries`
+	isAggMap := func(e ast.Expr) bool {
+		mt, ok := info.TypeOf(e).Underlying().(*types.Map)
+		if !ok {
+			return false
+		}
+		pt, ok := mt.Elem().(*types.Pointer)
+		if !ok {
+			return false
+		}
+		st, ok := pt.Elem().Underlying().(*types.Struct)
+		if !ok {
+			return false
+		}
+		for i := 0; i < st.NumFields(); i++ {
+			if st.Field(i).Name() == "entries" {
+				return true
+			}
+		}
+		return false
+	}
+	for _, name := range []string{"VADD", "VDEL", "VMETA", "VCONFIG", "VAUTOLINKS"} {
+		arm := rt.Arms[name]
+		if arm == nil {
+			r.Und("CDC-8", "arm:"+name, "", "replay arm missing")
+			continue
+		}
+		usesRestoring, direct := false, false
+		var directPos token.Pos
+		ast.Inspect(arm.Clause, func(n ast.Node) bool {
+			switch x := n.(type) {
+			case *ast.CallExpr:
+				if id, ok := x.Fun.(*ast.Ident); ok && restoring[info.Uses[id]] {
+					usesRestoring = true
+				}
+				if typeutil.StaticCallee(info, x) == getIdx {
+					usesRestoring = true
+				}
+			case *ast.IndexExpr:
+				if isAggMap(x.X) {
+					direct = true
+					directPos = x.Pos()
+				}
+			}
+			return true
+		})
+		ok := usesRestoring && !direct
+		pos := w.Pos(arm.Clause.Pos())
+		if direct {
+			pos = w.Pos(directPos)
+		}
+		r.Cond(ok, "CDC-8", "arm:"+name+":sees-restored-indexes", pos, "index resolved through a lookup that falls back to the snapshot-restored DB",
+			"the "+name+" arm looks its index up only among indexes created by a VCREATE of this log: after SaveSnapshot (which truncates the log) every "+name+" is dropped on restart")
+	}
+	if arm := rt.Arms["VDROP"]; arm != nil {
+		r.Cond(callsFn(arm.Clause, dropIdx), "CDC-8", "arm:VDROP:drops-restored-index", w.Pos(arm.Clause.Pos()), "reaches DB.DeleteVectorIndex", "the VDROP arm never removes a snapshot-restored index: a dropped index comes back after restart")
+	} else {
+		r.Und("CDC-8", "arm:VDROP", "", "replay arm missing")
+	}
+	// apply phase: deletions reach the live index
+	del1 := w.FuncObj("pkg/core/hnsw", "Index.Delete")
+	applies := false
+	ast.Inspect(fi.Decl.Body, func(n ast.Node) bool {
+		if n == ast.Node(rt.Switch) {
+			return false
+		}
+		if c, ok := n.(*ast.CallExpr); ok {
+			f := typeutil.Callee(info, c)
+			if fn, ok := f.(*types.Func); ok && fn.Name() == "Delete" && (fn == del1 || relPkg(fn) == "pkg/core") {
+				applies = true
+			}
+		}
+		return true
+	})
+	r.Cond(applies, "CDC-8", "apply:deletes-from-restored-index", w.Pos(fi.Decl.Pos()), "replayed deletions are applied to the live index", "replayAOF never deletes a vector from a restored index: a vector deleted after a snapshot is back after restart")
+}
